@@ -120,3 +120,292 @@ Proof.
       try (apply parent_determined_b_sound; vm_compute; reflexivity); lia.
   - split; vm_compute; reflexivity.
 Qed.
+
+(* ------------------------------------------------------------------ what the statement computes (bridge)
+   For a statement of the shape stmt_ok accepts, the generic evaluator eval_merge_stmt returns, up to order, the
+   GROUP BY (parent, function, node) sums of the stored elements projected on the selected type. *)
+Definition tuple_of (r : row) : list val := [VU (r_parent r); VU (r_fn r); VU (r_id r); VI (r_self r); VI (r_total r)].
+Definition proj_elem (tok : Z) (x : selem) : row :=
+  let y := array_first tok (e_vals x) in
+  {| r_parent := e_p x; r_fn := e_f x; r_id := e_i x; r_self := fst (snd y); r_total := snd (snd y) |}.
+Definition key_of (r : row) : list val := [VU (r_parent r); VU (r_fn r); VU (r_id r)].
+Definition the_proj (ty : nat) : list tsel := [TField 1; TField 2; TField 3; TFirst ty 4 1 2; TAf 3].
+Definition the_out : list gsel := [GKey 1; GKey 2; GKey 3; GSum 4; GSum 5].
+
+Lemma eval_proj_ok toks ty x : eval_proj toks x None (the_proj ty) = tuple_of (proj_elem (nth ty toks (-2)) x).
+Proof. reflexivity. Qed.
+
+Lemma key_of_tuple r : map (field (tuple_of r)) [1; 2; 3]%N = key_of r.
+Proof. reflexivity. Qed.
+
+Lemma key_eq_gkey a b : key_eq (key_of a) (key_of b) = gkey_eqb a b.
+Proof.
+  unfold key_eq, key_of, gkey_eqb. cbn. rewrite andb_true_r, andb_assoc. reflexivity.
+Qed.
+
+Definition lsum (l : list Z) : Z := fold_left (fun a b => wrap64 (a + b)) l 0.
+Lemma lsum_snoc l x : lsum (l ++ [x]) = wrap64 (lsum l + x).
+Proof. unfold lsum. rewrite fold_left_app. reflexivity. Qed.
+
+(* group g of the evaluator represents row r of the specification *)
+Definition rep (g : list val * list (list val)) (r : row) : Prop :=
+  exists m0 ms, g = (key_of r, map tuple_of (m0 :: ms)) /\ key_of m0 = key_of r /\
+                r_self r = lsum (map r_self (m0 :: ms)) /\ r_total r = lsum (map r_total (m0 :: ms)).
+
+Lemma group_step gs rs r : Forall2 rep gs rs -> row_in_range r ->
+  Forall2 rep (add_to_group gs (key_of r) (tuple_of r)) (group_insert rs r).
+Proof.
+  intros H Hr. induction H as [|g q gs rs Hg Hrest IH]; cbn [add_to_group group_insert].
+  - constructor; [|constructor]. exists r, []. split; [reflexivity|]. split; [reflexivity|].
+    destruct Hr as [H1 H2]. unfold lsum. cbn [map fold_left]. rewrite !Z.add_0_l.
+    split; symmetry; apply wrap64_small; [exact H1|exact H2].
+  - destruct Hg as (m0 & ms & -> & Hk & Hs & Ht). rewrite key_eq_gkey.
+    destruct (gkey_eqb q r) eqn:E.
+    + constructor; [|exact Hrest].
+      exists m0, (ms ++ [r]). 
+      assert (Hkey : key_of q = key_of r).
+      { unfold gkey_eqb in E. apply andb_prop in E. destruct E as [E E3]. apply andb_prop in E. destruct E as [E1 E2].
+        apply N.eqb_eq in E1, E2, E3. unfold key_of. congruence. }
+      split.
+      * unfold key_of at 1. cbn [r_parent r_fn r_id]. fold (key_of q).
+        change (m0 :: ms ++ [r]) with ((m0 :: ms) ++ [r]). rewrite map_app. reflexivity.
+      * split; [unfold key_of at 2; cbn [r_parent r_fn r_id]; exact Hk|].
+        cbn [r_self r_total]. change (m0 :: ms ++ [r]) with ((m0 :: ms) ++ [r]).
+        rewrite !map_app. change (map r_self [r]) with [r_self r]. change (map r_total [r]) with [r_total r].
+        rewrite !lsum_snoc, <- Hs, <- Ht. split; reflexivity.
+    + constructor; [|exact IH]. exists m0, ms. repeat split; assumption.
+Qed.
+
+Lemma groups_rep rows : Forall row_in_range rows ->
+  Forall2 rep (fold_left (fun gs t => add_to_group gs (map (field t) [1; 2; 3]%N) t) (map tuple_of rows) []) (group_rows rows).
+Proof.
+  unfold group_rows. intros Hr.
+  assert (G : forall rows gs rs, Forall row_in_range rows -> Forall2 rep gs rs ->
+    Forall2 rep (fold_left (fun gs t => add_to_group gs (map (field t) [1; 2; 3]%N) t) (map tuple_of rows) gs)
+                (fold_left group_insert rows rs)).
+  { clear rows Hr. induction rows as [|r rows IH]; intros gs rs Hr H; [exact H|].
+    change (map tuple_of (r :: rows)) with (tuple_of r :: map tuple_of rows). cbn [fold_left].
+    inversion Hr as [|? ? Hr1 Hr2]; subst. apply IH; [exact Hr2|]. rewrite key_of_tuple. apply group_step; assumption. }
+  apply G; [exact Hr|constructor].
+Qed.
+
+Lemma sum_field_tuples n (sel : row -> Z) ms :
+  (forall r, field (tuple_of r) n = VI (sel r)) ->
+  forall a, fold_left (fun acc t => match acc, field t n with VI a, VI b => VI (wrap64 (a + b)) | _, _ => VErr end)
+              (map tuple_of ms) (VI a) = VI (fold_left (fun a b => wrap64 (a + b)) (map sel ms) a).
+Proof.
+  intros Hf. induction ms as [|m ms IH]; intros a; cbn [map fold_left]; [reflexivity|]. rewrite Hf. apply IH.
+Qed.
+
+Lemma rep_row g r : rep g r -> row_of_tuple (map (eval_gsel (snd g)) the_out) = Some r.
+Proof.
+  intros (m0 & ms & -> & Hk & Hs & Ht). cbn [snd the_out map eval_gsel].
+  unfold sum_field. rewrite (sum_field_tuples 4 r_self (m0 :: ms) (fun _ => eq_refl)).
+  rewrite (sum_field_tuples 5 r_total (m0 :: ms) (fun _ => eq_refl)).
+  fold (lsum (map r_self (m0 :: ms))). fold (lsum (map r_total (m0 :: ms))). rewrite <- Hs, <- Ht.
+  cbn [map hd]. unfold key_of in Hk. inversion Hk as [[H1 H2 H3]].
+  change (field (tuple_of m0) 1) with (VU (r_parent m0)). change (field (tuple_of m0) 2) with (VU (r_fn m0)).
+  change (field (tuple_of m0) 3) with (VU (r_id m0)). rewrite H1, H2, H3. destruct r. reflexivity.
+Qed.
+
+Lemma insert_sorted_perm n g l : Permutation (insert_sorted n g l) (g :: l).
+Proof.
+  induction l as [|h r IH]; cbn [insert_sorted]; [reflexivity|].
+  destruct (val_le _ _); [|reflexivity]. rewrite IH. apply perm_swap.
+Qed.
+Lemma sort_perm n (gs : list (list val * list (list val))) :
+  Permutation (fold_left (fun acc g => insert_sorted n g acc) gs []) gs.
+Proof.
+  assert (G : forall gs acc, Permutation (fold_left (fun acc g => insert_sorted n g acc) gs acc) (acc ++ gs)).
+  { clear gs. induction gs as [|g gs IH]; intros acc; cbn [fold_left]; [rewrite app_nil_r; reflexivity|].
+    rewrite IH, insert_sorted_perm. apply Permutation_middle. }
+  apply (G gs []).
+Qed.
+
+Lemma forall2_perm {A B} (R : A -> B -> Prop) l1 l1' : Permutation l1 l1' ->
+  forall l2, Forall2 R l1 l2 -> exists l2', Permutation l2 l2' /\ Forall2 R l1' l2'.
+Proof.
+  induction 1 as [|x l l' _ IH|x y l|l l' l'' _ IH1 _ IH2]; intros l2 H.
+  - inversion H; subst. exists []. split; constructor.
+  - inversion H as [|? b ? l2t Hx Ht]; subst. destruct (IH _ Ht) as (l2' & Hp & Hf).
+    exists (b :: l2'). split; [constructor; exact Hp|constructor; assumption].
+  - inversion H as [|? b1 ? t1 Hy H']; subst. inversion H' as [|? b2 ? t2 Hx Ht]; subst.
+    exists (b2 :: b1 :: t2). split; [apply perm_swap|repeat constructor; assumption].
+  - destruct (IH1 _ H) as (m & Hp1 & Hf1). destruct (IH2 _ Hf1) as (m' & Hp2 & Hf2).
+    exists m'. split; [etransitivity; eassumption|exact Hf2].
+Qed.
+
+Lemma forall2_length {A B} (R : A -> B -> Prop) l l' : Forall2 R l l' -> length l = length l'.
+Proof. induction 1; cbn [length]; congruence. Qed.
+
+Lemma take_z_all {A} (l : list A) n : Z.of_nat (length l) <= n -> take_z n l = l.
+Proof.
+  revert n. induction l as [|x l IH]; intros n H; cbn [take_z]; [reflexivity|].
+  cbn [length] in H. destruct (Z.leb n 0) eqn:E; [apply Z.leb_le in E; lia|]. rewrite IH by lia. reflexivity.
+Qed.
+
+Lemma all_some_map {A B} (f : A -> option B) l l' : Forall2 (fun a b => f a = Some b) l l' -> all_some (map f l) = Some l'.
+Proof.
+  induction 1 as [|a b l l' Hab _ IH]; cbn [map all_some]; [reflexivity|]. rewrite Hab, IH. reflexivity.
+Qed.
+
+Lemma leqb_eq {A} (eqb : A -> A -> bool) : (forall a b, eqb a b = true -> a = b) ->
+  forall a b, leqb eqb a b = true -> a = b.
+Proof.
+  intros He. induction a as [|x a IH]; intros [|y b] H; cbn [leqb] in H; try discriminate; [reflexivity|].
+  apply andb_prop in H. destruct H as [H1 H2]. f_equal; [apply He; exact H1|apply IH; exact H2].
+Qed.
+Lemma tsel_eqb_eq a b : tsel_eqb a b = true -> a = b.
+Proof.
+  destruct a, b; cbn [tsel_eqb]; intros H; try discriminate.
+  - apply N.eqb_eq in H. congruence.
+  - apply andb_prop in H. destruct H as [H H4]. apply andb_prop in H. destruct H as [H H3]. apply andb_prop in H. destruct H as [H1 H2].
+    apply Nat.eqb_eq in H1. apply N.eqb_eq in H2, H3, H4. congruence.
+  - apply N.eqb_eq in H. congruence.
+Qed.
+Lemma gsel_eqb_eq a b : gsel_eqb a b = true -> a = b.
+Proof. destruct a, b; cbn [gsel_eqb]; intros H; try discriminate; apply N.eqb_eq in H; congruence. Qed.
+
+Definition pre_rows (tok : Z) (s : merge_stmt) (db : list sprof) : list row :=
+  flat_map (fun p => map (proj_elem tok) (sp_tree p))
+           (filter (fun p => Z.leb (ms_from s) (sp_ts p) && Z.ltb (sp_ts p) (ms_to s)) db).
+
+Theorem stmt_semantics toks ty s db :
+  stmt_ok ty s = true ->
+  let pre := pre_rows (nth ty toks (-2)) s db in
+  Forall row_in_range pre -> Z.of_nat (length (group_rows pre)) <= ms_limit s ->
+  exists rows, eval_merge_stmt toks s db = Some rows /\ Permutation rows (group_rows pre).
+Proof.
+  intros Hok pre Hr Hlim. unfold stmt_ok in Hok.
+  repeat (apply andb_prop in Hok; destruct Hok as [Hok ?]).
+  apply (leqb_eq tsel_eqb tsel_eqb_eq) in Hok.
+  match goal with H : leqb gsel_eqb _ _ = true |- _ => apply (leqb_eq gsel_eqb gsel_eqb_eq) in H; rename H into Hout end.
+  match goal with H : leqb N.eqb (ms_group s) _ = true |- _ => apply (leqb_eq N.eqb (fun a b => proj1 (N.eqb_eq a b))) in H; rename H into Hgrp end.
+  match goal with H : leqb N.eqb (ms_order s) _ = true |- _ => apply (leqb_eq N.eqb (fun a b => proj1 (N.eqb_eq a b))) in H; rename H into Hord end.
+  match goal with H : match ms_tree_agg s with _ => _ end = true |- _ => rename H into Hagg end.
+  unfold eval_merge_stmt. rewrite Hok, Hout, Hgrp, Hord.
+  destruct (ms_tree_agg s); [|discriminate].
+  fold (the_proj ty). fold the_out.
+  assert (Epre : flat_map (fun p => map (fun x => eval_proj toks x None (the_proj ty)) (sp_tree p))
+                   (filter (fun p => Z.leb (ms_from s) (sp_ts p) && Z.ltb (sp_ts p) (ms_to s)) db) = map tuple_of pre).
+  { unfold pre, pre_rows. induction (filter _ db) as [|p l IH]; [reflexivity|]. cbn [flat_map]. rewrite map_app, IH. f_equal.
+    rewrite map_map. apply map_ext. intros x. apply eval_proj_ok. }
+  rewrite Epre.
+  pose proof (groups_rep pre Hr) as Hrep.
+  set (groups := fold_left (fun gs t => add_to_group gs (map (field t) [1; 2; 3]%N) t) (map tuple_of pre) []) in *.
+  destruct (forall2_perm rep _ _ (Permutation_sym (sort_perm 1%N groups)) _ Hrep) as (rows & Hp & Hf).
+  exists rows. split; [|symmetry; exact Hp].
+  assert (Hlen : length (fold_left (fun acc g => insert_sorted 1 g acc) groups []) = length (group_rows pre)).
+  { rewrite (Permutation_length (sort_perm 1%N groups)). apply (forall2_length rep). exact Hrep. }
+  rewrite take_z_all by (rewrite Hlen; exact Hlim).
+  apply all_some_map. clear - Hf. induction Hf as [|g r l l' Hg _ IH]; constructor; [apply rep_row; exact Hg|exact IH].
+Qed.
+
+(* ------------------------------------------------------------------ from the stored profiles to the statement's answer *)
+Fixpoint first_index (tok : Z) (names : list Z) : option nat :=
+  match names with
+  | [] => None
+  | x :: r => if Z.eqb x tok then Some O else option_map S (first_index tok r)
+  end.
+
+Lemma af_combine tok : forall names (vals : list (Z * Z)),
+  snd (array_first tok (combine names vals)) =
+  match first_index tok names with Some k => nth k vals (0, 0) | None => (0, 0) end.
+Proof.
+  induction names as [|x names IH]; intros vals; [reflexivity|].
+  destruct vals as [|v vals]; cbn [combine array_first first_index].
+  - destruct (Z.eqb x tok); [reflexivity|]. destruct (first_index tok names) as [k|]; [destruct k|]; reflexivity.
+  - cbn [fst]. destruct (Z.eqb x tok); [reflexivity|]. rewrite IH.
+    destruct (first_index tok names) as [k|]; reflexivity.
+Qed.
+
+(* the element of the `tree` column the writer stores for a row: the values carry the names of the sample types *)
+Definition elem_of (names : list Z) (n : node) : selem :=
+  {| e_p := n_parent n; e_f := n_fn n; e_i := n_id n; e_vals := combine names (n_vals n) |}.
+
+Lemma proj_elem_project tok names n : proj_elem tok (elem_of names n) = project_row (first_index tok names) n.
+Proof.
+  unfold proj_elem, elem_of, project_row. cbn [e_p e_f e_i e_vals]. rewrite af_combine. unfold val_at.
+  destruct (first_index tok names); reflexivity.
+Qed.
+
+(* a stored profile: timestamp, names of its sample types, number of sample types, samples *)
+Definition pentry : Type := Z * list Z * nat * list sample.
+Definition sprof_of (h : N -> N -> N) (na : N) (e : pentry) : sprof :=
+  let '(ts, names, nt, ss) := e in {| sp_ts := ts; sp_tree := map (elem_of names) (stored_tree h na nt ss) |}.
+Definition stored_of (tok : Z) (e : pentry) : Z * stored :=
+  let '(ts, names, nt, ss) := e in (ts, {| sp_nt := nt; sp_samples := ss; sp_sel := first_index tok names |}).
+
+Lemma pre_rows_stored h na tok s (D : list pentry) :
+  pre_rows tok s (map (sprof_of h na) D) =
+  concat (map (stored_rows h na) (map snd (filter (in_window (ms_from s) (ms_to s)) (map (stored_of tok) D)))).
+Proof.
+  unfold pre_rows. induction D as [|e D IH]; [reflexivity|].
+  destruct e as [[[ts names] nt] ss]. cbn [map filter sprof_of stored_of sp_ts].
+  replace (in_window (ms_from s) (ms_to s) (ts, {| sp_nt := nt; sp_samples := ss; sp_sel := first_index tok names |}))
+    with (Z.leb (ms_from s) ts && Z.ltb ts (ms_to s)) by reflexivity.
+  destruct (Z.leb (ms_from s) ts && Z.ltb ts (ms_to s)); [|exact IH].
+  cbn [flat_map map concat snd sp_tree]. rewrite IH. f_equal.
+  unfold stored_rows. cbn [sp_sel sp_nt sp_samples]. rewrite map_map. apply map_ext. intros n. apply proj_elem_project.
+Qed.
+
+Lemma stored_rows_in_range h na P : Forall row_in_range (stored_rows h na P).
+Proof.
+  unfold stored_rows, stored_tree. apply Forall_forall. intros r Hr. apply in_map_iff in Hr. destruct Hr as [n [<- Hn]].
+  destruct (post_process_nodup_range h (sp_nt P) (normalize na (sp_samples P))) as [_ Hrange].
+  unfold row_in_range, in_range, project_row. destruct (sp_sel P) as [k|]; cbn [r_self r_total fst snd].
+  - exact (val_at_in_range k _ n Hrange Hn).
+  - unfold two63. split; lia.
+Qed.
+
+(* The whole read path under the statement the service really sends: for a statement of the accepted shape, the
+   evaluator's answer on the stored database exists, and whatever MergeTrie makes of it conserves and totals the
+   weights of the profiles in the statement's window. *)
+Theorem statement_read_path h na toks ty s (D : list pentry) :
+  stmt_ok ty s = true ->
+  let tok := nth ty toks (-2) in
+  let Ps := map snd (filter (in_window (ms_from s) (ms_to s)) (map (stored_of tok) D)) in
+  Forall (stored_ok h na) Ps ->
+  Z.of_nat (length (concat (map (stored_rows h na) Ps))) <= ms_limit s ->
+  exists rows, eval_merge_stmt toks s (map (sprof_of h na) D) = Some rows /\
+    forall fs, let out := rows_of (m_nodes (merge_trie (ms_limit s) new_tree rows fs)) in
+               rconserves out /\ eqm (rchild_tot out 0%N) (sumZ (map stored_weight Ps)).
+Proof.
+  intros Hok tok Ps Hst Hlim.
+  pose proof (pre_rows_stored h na tok s D) as Epre. fold Ps in Epre.
+  assert (Hrange : Forall row_in_range (pre_rows tok s (map (sprof_of h na) D))).
+  { rewrite Epre. apply Forall_forall. intros r Hr. apply in_concat in Hr. destruct Hr as [l [Hl Hr]].
+    apply in_map_iff in Hl. destruct Hl as [P [<- _]]. pose proof (stored_rows_in_range h na P) as HP.
+    rewrite Forall_forall in HP. apply HP. exact Hr. }
+  assert (Hglen : Z.of_nat (length (group_rows (pre_rows tok s (map (sprof_of h na) D)))) <= ms_limit s).
+  { pose proof (group_rows_length (pre_rows tok s (map (sprof_of h na) D))) as H. rewrite Epre in *. lia. }
+  destruct (stmt_semantics toks ty s (map (sprof_of h na) D) Hok Hrange Hglen) as (rows & Hev & Hperm).
+  exists rows. split; [exact Hev|]. intros fs.
+  fold tok in Hperm. rewrite Epre in Hperm.
+  apply (read_path_conserves h na (ms_limit s) (map (stored_of tok) D) (ms_from s) (ms_to s) rows fs Hst Hperm).
+  rewrite (Permutation_length Hperm). rewrite <- Epre. exact Hglen.
+Qed.
+
+(* the hypotheses of statement_read_path are met: a statement of the accepted shape (opaque parts shortened), a
+   database of three stored copies of ex_profile with their sample types named 0 and 1, the third outside the window *)
+From Coq Require Import String.
+Definition ex_stmt : merge_stmt :=
+  {| ms_fp := "SELECT fingerprint FROM profiles_series_gin"%string; ms_table := "profiles"%string; ms_matchers := "1 == 1"%string;
+     ms_types := ["cpu:nanoseconds"%string];
+     ms_proj := the_proj 0; ms_from := 0; ms_to := 2000000000; ms_out := the_out; ms_group := [1; 2; 3]%N;
+     ms_order := [1%N]; ms_limit := the_limit; ms_tree_agg := GroupArray; ms_fn_agg := GroupUniqArrayArray |}.
+Definition ex_D : list pentry :=
+  [ (0, [0; 1], 2%nat, ex_profile); (1000000000, [1; 0], 2%nat, ex_profile); (5000000000, [0; 1], 2%nat, ex_profile) ].
+Lemma ex_stmt_hypotheses :
+  stmt_ok 0 ex_stmt = true /\
+  let Ps := map snd (filter (in_window (ms_from ex_stmt) (ms_to ex_stmt)) (map (stored_of 0) ex_D)) in
+  Forall (stored_ok city16 0%N) Ps /\ List.length (List.concat (map (stored_rows city16 0%N) Ps)) = 12%nat /\
+  option_map (@List.length row) (eval_merge_stmt [0] ex_stmt (map (sprof_of city16 0%N) ex_D)) = Some 6%nat.
+Proof.
+  split; [vm_compute; reflexivity|]. cbn zeta. split; [|split; vm_compute; reflexivity].
+  change (map snd (filter (in_window (ms_from ex_stmt) (ms_to ex_stmt)) (map (stored_of 0) ex_D)))
+    with [ {| sp_nt := 2; sp_samples := ex_profile; sp_sel := Some 0%nat |};
+           {| sp_nt := 2; sp_samples := ex_profile; sp_sel := Some 1%nat |} ].
+  repeat constructor; cbn [stored_ok sp_samples sp_sel sp_nt];
+    try (apply parent_determined_b_sound; vm_compute; reflexivity); lia.
+Qed.
